@@ -659,7 +659,7 @@ def judge_date(string, out):
 class C18(PropCheck):
     id = 'C18'
     extractors = (w3c_date.generate, c18_meta_keys.generate)
-    modules = ('WpModel.Props.C18', 'WpModel.Props.C18Pdf', 'WpModel.Props.C18Tree', 'WpModel.Props.C18LinkAttr',
+    modules = ('WpModel.Props.C18', 'WpModel.Props.C18Pdf', 'WpModel.Props.C18Tree', 'WpModel.Props.C18LinkAttr', 'WpModel.Props.C18Doc',
                'WpModel.Witness.C18')
     trusted_base = (
         'modelled, not verified: make_page_bookmark_tree / Document.make_bookmark_tree (zipper for the aliased '
@@ -1525,7 +1525,7 @@ MANIFEST = {
             'for a bare fragment or the document\'s own URL (same scheme, host, path and query) and then targets the unquoted '
             'fragment, otherwise it carries the resolved URL; unquote undoes iri_to_uri; the clickable rectangle of a box is '
             'its border box (inline: over the line height) computed from the used values; /Dests is sorted by the bytes of '
-            'its keys for every set of names, and so is /EmbeddedFiles for every list of attachments (equal names in document order); every outline entry points into its own page (its number, its height) whatever the page sizes; a PDF written from a selection of the pages (Document.copy) keeps on each page exactly the links of the whole document minus the internal ones whose anchor is on no selected page, and a document written again embeds the same files. Also: the bookmark builder never fails on levels >= 1 however the list is split over pages, '
+            'its keys for every set of names, and so is /EmbeddedFiles for every list of attachments (equal names in document order); every outline entry points into its own page (its number, its height) whatever the page sizes; a PDF written from a selection of the pages (Document.copy) keeps on each page exactly the links of the whole document minus the internal ones whose anchor is on no selected page, and a document written again embeds the same files; at document level (resolve_links + add_links + the name sort as compared with written PDFs) no /Link names a missing /Dests key, every key is there once, in byte order, and points into a page carrying that anchor. Also: the bookmark builder never fails on levels >= 1 however the list is split over pages, '
             'the pre-order of its tree is the bookmark list, depths follow the nearest-smaller-level rule and the '
             'result does not depend on the page split; add_outlines links siblings both ways, sets First/Last/Parent '
             'and Count = visible descendants; resolve_links emits no dangling internal link and lists every anchor '
